@@ -131,15 +131,9 @@ def GenerateRxnNet(initial_reactant, reaction_rules):
                             del products[i]
                             break
                 # remove duplicates
-                # TODO. This removes also species with different charges
                 for i in range(len(products)-1, -1, -1):
                     for j in range(0, i):
-                        if products[i].GetNumAtoms() ==\
-                            products[j].GetNumAtoms() and \
-                            products[i].GetNumAtoms() ==\
-                                len(products[i].
-                                    GetSubstructMatch(products[j])):
-
+                        if _same_species(products[i], products[j]):
                             del products[i]
                             break
                 # update unprocessed molecule list
@@ -149,11 +143,7 @@ def GenerateRxnNet(initial_reactant, reaction_rules):
                     # (also against the species still waiting: the same
                     # species can be produced twice before it is processed)
                     for mol2 in processed + unprocessed:
-                        # first check the nubmer of atoms and then
-                        # look for substructure match
-                        if mol1.GetNumAtoms() == mol2.GetNumAtoms() and \
-                            mol1.GetNumAtoms() == len(mol1.GetSubstructMatch
-                                                      (mol2)):
+                        if _same_species(mol1, mol2):
                             # if it's in either list, break
                             inthelist = 1
                             break
@@ -167,6 +157,30 @@ def GenerateRxnNet(initial_reactant, reaction_rules):
         _sanitize_except_aromatization(processed[i])
         # print Chem.MolToSmiles(processed[i])
     return processed
+
+
+def _same_species(mol1, mol2):
+    """True if the two molecules (all hydrogens explicit) are the same species:
+    same number of atoms, mol2 embeds in mol1, and some embedding pairs atoms
+    of equal formal charge.  (A substructure match alone does not look at the
+    charges of mol1: CH3NH2 and the radical cation CH3NH2+ would be one
+    species.)"""
+    # first check the nubmer of atoms and then look for substructure match
+    if mol1.GetNumAtoms() != mol2.GetNumAtoms():
+        return False
+    match = mol1.GetSubstructMatch(mol2)
+    if len(match) != mol1.GetNumAtoms():
+        return False
+    if not any(atom.GetFormalCharge() for atom in mol1.GetAtoms()) and \
+            not any(atom.GetFormalCharge() for atom in mol2.GetAtoms()):
+        return True
+    for match in mol1.GetSubstructMatches(mol2, uniquify=False,
+                                          maxMatches=10000):
+        if all(mol1.GetAtomWithIdx(i).GetFormalCharge() ==
+               mol2.GetAtomWithIdx(q).GetFormalCharge()
+               for q, i in enumerate(match)):
+            return True
+    return False
 
 
 def _sanitize_except_aromatization(mol):
